@@ -10,11 +10,22 @@ package wk
 //     key-value pair (sync.WaitGroup in copyData), so its return is the completion signal.
 //     Result: {"err": "<text or empty>"}.
 
+//
+// c19.rawentries {uuid, name}
+//     Lists what the store physically holds for the instance: for every raw key in the instance's key range
+//     (RawRangeQuery, keys only) the type-specific key (hex), the version id and whether it is a tombstone.
+//     The driver feeds these into its own versioned-map model to decide which versions see an unresolved
+//     merge conflict under some key (there "the source as seen from V" is undefined).
+
 import (
+	"encoding/hex"
 	"encoding/json"
+	"fmt"
+	"runtime/debug"
 
 	"github.com/janelia-flyem/dvid/datastore"
 	"github.com/janelia-flyem/dvid/dvid"
+	"github.com/janelia-flyem/dvid/storage"
 )
 
 func init() {
@@ -36,9 +47,69 @@ func init() {
 		if err != nil {
 			return nil, err
 		}
-		if err := datastore.CopyInstance(uuid, dvid.InstanceName(source), dvid.InstanceName(target), config); err != nil {
-			return map[string]string{"err": err.Error()}, nil
+		var cerr error
+		var panicked string
+		func() {
+			defer func() {
+				if e := recover(); e != nil {
+					panicked = fmt.Sprintf("PANIC in datastore.CopyInstance: %v\n%s", e, debug.Stack())
+				}
+			}()
+			cerr = datastore.CopyInstance(uuid, dvid.InstanceName(source), dvid.InstanceName(target), config)
+		}()
+		if panicked != "" {
+			return map[string]string{"err": panicked, "panic": "true"}, nil
+		}
+		if cerr != nil {
+			return map[string]string{"err": cerr.Error()}, nil
 		}
 		return map[string]string{"err": ""}, nil
+	}
+
+	APIs["c19.rawentries"] = func(args json.RawMessage) (interface{}, error) {
+		var a struct {
+			UUID string `json:"uuid"`
+			Name string `json:"name"`
+		}
+		if err := json.Unmarshal(args, &a); err != nil {
+			return nil, err
+		}
+		data, err := datastore.GetDataByUUIDName(dvid.UUID(a.UUID), dvid.InstanceName(a.Name))
+		if err != nil {
+			return nil, err
+		}
+		db, err := datastore.GetOrderedKeyValueDB(data)
+		if err != nil {
+			return nil, err
+		}
+		type entry struct {
+			TK   string `json:"tk"`
+			V    uint32 `json:"v"`
+			Tomb bool   `json:"tomb,omitempty"`
+		}
+		out := []entry{}
+		ctx := storage.NewDataContext(data, 0)
+		lo, hi := ctx.KeyRange()
+		ch := make(chan *storage.KeyValue, 100)
+		done := make(chan error, 1)
+		go func() { done <- db.RawRangeQuery(lo, hi, true, ch, nil) }()
+		for kv := range ch {
+			if kv == nil {
+				break
+			}
+			tk, err := storage.TKeyFromKey(kv.K)
+			if err != nil {
+				return nil, err
+			}
+			v, err := storage.VersionFromDataKey(kv.K)
+			if err != nil {
+				return nil, err
+			}
+			out = append(out, entry{TK: hex.EncodeToString(tk), V: uint32(v), Tomb: kv.K.IsTombstone()})
+		}
+		if err := <-done; err != nil {
+			return nil, err
+		}
+		return out, nil
 	}
 }
